@@ -68,7 +68,9 @@ def strategy(stratum, tier):
     return st.fixed_dictionaries(
         dict(
             fam=st.just(f),
-            spec=configs.st_spec(f, D, N, orders=(0, 1, 2, 3, 4)),
+            # the symmetries hold for any dealiasing fraction (aliasing itself commutes with them): also 1.0 (nothing
+            # but the Nyquist plane removed) and an uncommon value
+            spec=configs.st_spec(f, D, N, orders=(0, 1, 2, 3, 4), frac_choice=[2 / 3, 1.0, 2 / 3, 0.5, 0.8]),
             seed=gens.st_seed(),
             amp=st.floats(0.1, 1.0).map(lambda x: float("%.4g" % x)),
             shift=st.lists(st.one_of(st.integers(1, N - 1), st.integers(1, N - 1), st.integers(-N, 2 * N)), min_size=D, max_size=D),
